@@ -13,11 +13,11 @@ RULE = ('cases = base points x (TT tensors and TT matrices) of order 2..5 with M
         'ranks), rank profiles drawn over all achievable ones for small sizes, tensors z,w of arbitrary ranks. Independent reference: the harness builds the tangent space of the '
         'fixed-rank manifold at x densely (Jacobian of cores -> dense tensor by autograd, orthonormal basis Q by SVD, dimension checked against sum r_{k-1} n_k r_k - sum r_k^2) and '
         'requires D(P(z)) = Q Q^T vec(z). Algebraic monitors on dense values in addition: linearity, idempotence, self-adjointness, fixed point P(x)=x, residual orthogonality, '
-        'ranks(Pz) <= 2 ranks(x). riemannian_gradient(x,f) for f in {1/2||t-a||^2, <c,t>, (||t||^2)^2} must equal Q Q^T (dense Euclidean gradient by autograd). Tolerance 1e-9 relative (1e3*u/delta for the ill-conditioned base points: two interface vectors of one core a distance delta in {1e-4,1e-5,3e-6} apart, modes up to 24). '
+        'ranks(Pz) <= 2 ranks(x). riemannian_gradient(x,f) for f in {1/2||t-a||^2, <c,t>, (||t||^2)^2} must equal Q Q^T (dense Euclidean gradient by autograd). Tolerance 1e-9 relative (1e3*u/delta for the ill-conditioned base points: two interface vectors of one core a distance delta in {1e-4,1e-5,3e-6} apart, modes up to 24); a few base points with one mode of 1025 .. 2050. '
         'distinct = (kind, structure, rank profile, f); non-trivial = tangent space of dimension >= 2 and z not in it.')
 ASSUMPTIONS = ['real float64', 'base points of non-minimal rank are rejected by the generator (the manifold is not smooth there)']
 REQUIRED_REACH = ['manifold:riemannian_projection', 'manifold:riemannian_gradient', 'manifold:_delta2cores']
-REQUIRED_COUNTS = {'kind:tensor': 1, 'kind:operator': 1, 'projection_vs_dense_projector': 50, 'gradient_vs_dense_projector': 30, 'axiom_checks': 200, 'base-point:ill-conditioned': 10, 'moved_base_point_histories': 30, 'repeated_gradient_calls_at_one_object': 30}
+REQUIRED_COUNTS = {'kind:tensor': 1, 'kind:operator': 1, 'projection_vs_dense_projector': 50, 'gradient_vs_dense_projector': 30, 'axiom_checks': 200, 'base-point:ill-conditioned': 10, 'base-point:mode>1024': 2, 'moved_base_point_histories': 30, 'repeated_gradient_calls_at_one_object': 30}
 LINE_FUNCS = ['riemannian_projection', 'riemannian_gradient', '_delta2cores']
 
 
@@ -62,6 +62,26 @@ def cases(tier, seed):
                 R[k] = min(R[k], R[k - 1] * modes[k - 1], modes[k] * R[k + 1])
         cs.append({'gen': 'proj', 'N': N, 'M': M, 'R': R, 'f': ['quad', 'lin', 'quartic'][i % 3], 'Rz': gens.rank_profile(rng, d, 'rand', 4), 'Rw': gens.rank_profile(rng, d, 'rand', 3),
                    'ill': [1e-4, 1e-5, 3e-6][i % 3], 'ill_bond': rng.randint(1, d - 1), 'ill_side': i % 2})
+    # one long mode (above 1024, not a multiple of a power of two): size-dependent evaluation strategies must not change the projector
+    for i in range(4 if tier == 'quick' else 24):
+        d = 2 if (tier == 'quick' or i % 3) else 3
+        ttm = i % 4 == 3
+        big = rng.choice((1025, 1100, 1300) if tier == 'quick' else (1025, 1100, 1300, 1500, 2050))
+        pos = rng.randrange(d)
+        N = [2] * d
+        M = [1] * d if ttm else None
+        if ttm and i % 8 == 3:
+            M[pos], N[pos] = big, 1           # long ROW mode
+            M = [m if m != 1 or k_ == pos else 2 for k_, m in enumerate(M)]
+            N = [1 if k_ == pos else 2 for k_ in range(d)]
+        else:
+            N[pos] = big
+        modes = [a * b for a, b in zip(M, N)] if ttm else N
+        R = [1] + [2] * (d - 1) + [1]
+        for _ in range(3):
+            for k in range(1, d):
+                R[k] = min(R[k], R[k - 1] * modes[k - 1], modes[k] * R[k + 1])
+        cs.append({'gen': 'proj', 'N': N, 'M': M, 'R': R, 'f': ['quad', 'lin', 'quartic'][i % 3], 'Rz': [1] + [2] * (d - 1) + [1], 'Rw': [1] + [1] * (d - 1) + [1], 'long': True})
     return cs
 
 
@@ -122,6 +142,8 @@ def run_case(case, ctx):
         return
     kind = 'operator' if ttm else 'tensor'
     ctx.count('kind:' + kind)
+    if case.get('long'):
+        ctx.count('base-point:mode>1024')
     key = 'manifold/' + kind
     what = '%s N=%s M=%s R=%s' % (kind, N, M, R)
     # ---- independent dense projector: tangent space = range of the Jacobian of the parametrisation ---------------------
@@ -135,7 +157,18 @@ def run_case(case, ctx):
         leaf = [c.detach().clone().requires_grad_(True) for c in obj.cores]
         J = torch.autograd.functional.jacobian(param_to_dense, tuple(leaf))
         J = torch.cat([j.reshape(numel, -1) for j in J], dim=1)
-        U, S, _ = torch.linalg.svd(J, full_matrices=False)
+        try:
+            U, S, _ = torch.linalg.svd(J, full_matrices=False)
+        except RuntimeError:
+            # LAPACK's divide-and-conquer SVD occasionally fails to converge on the ill-conditioned Jacobians: orthogonal reduction first, then the SVD of the small triangular factor
+            try:
+                Qj, Rj = torch.linalg.qr(J)
+                U, S, _ = torch.linalg.svd(Rj, full_matrices=False)
+                U = Qj @ U
+                ctx.count('reference-svd:retry-through-qr')
+            except RuntimeError:
+                ctx.count('rejected:reference-svd-did-not-converge')
+                return None, -1
         rk_ = int((S > 1e-10 * S[0]).sum())
         return (U[:, :rk_], rk_) if rk_ == dim_expected else (None, rk_)
     Q, rk = tangent_basis(x)
